@@ -1111,10 +1111,16 @@ func (r *runner) runStep(st *Step, idx, depth int) {
 	case "release":
 		if r.delay != nil && !r.delayReleased {
 			r.delayReleased = true
+			r.event("client.release", 0, nil)
 			close(r.delay)
-			// the container picks the release up asynchronously; an accepted empty
-			// Write afterwards proves it has been processed or will be first in line
-			runtime.Gosched()
+			// the container picks the release up in its select loop, where it competes
+			// with whatever else is ready; every empty Write makes the loop go round
+			// once more, so after 64 of them the release has been taken (1 - 2^-64)
+			for i := 0; i < 64; i++ {
+				if _, err := r.p.Write(nil); err != nil {
+					break
+				}
+			}
 		}
 	case "barwait":
 		if b != nil {
